@@ -1,5 +1,9 @@
 package dtls
 
+// GENERATED from harness/C19/resume_seq.go (only zzC19ResumeEntryPointKeepsCIDs is kept as an entry). C10: which record
+// layout (RFC 6347 or the RFC 9146 connection-ID variant with its own additional data) a resumed connection puts on the
+// wire is decided by the restored remote connection ID; it must be the exported one, also for a send-only side.
+
 //symgo:pkg github.com/pion/dtls/v3
 //symgo:param NREC quick=2 thorough=4
 //symgo:param NPAY quick=2 thorough=4
@@ -164,7 +168,6 @@ func zzC19SameNegotiated(a, b *State) bool {
 // (epoch, sequence number) pair - hence no AEAD nonce - is used twice, and the connection-ID framing of the records is
 // the same before and after. A further export taken from the resumed connection reports s0+n0+n1+n2.
 //
-//symgo:entry covers=client,server,plain,cidwrap,export_fresh,export_after_records,second_export_same_point,second_export_later,resumed_idle,resumed_sends
 func zzC19ResumeContinuesSequence() {
 	zzC19SeqEpochs, zzC19SeqSeqs = nil, nil
 	nrec := zzsymParam("NREC")
@@ -316,7 +319,6 @@ func zzC19SeqRandom(name string) (r [32]byte) {
 // exporting connection and on the resumed one - is refused too; the exported and the imported counter are exactly the
 // live counter (never clamped back into the 48-bit space, which would re-issue 2^48-1).
 //
-//symgo:entry covers=exhausted_before_export,last_number_used_before_export,exhausted_stays_exhausted_after_resume
 func zzC19SequenceSpaceEndAcrossExport() {
 	zzC19SeqEpochs, zzC19SeqSeqs = nil, nil
 	isClient := zzsymChoice("isClient", 2) == 1
@@ -435,4 +437,15 @@ func zzC19ResumeEntryPointKeepsCIDs() {
 	if (len(exported.localConnectionID) == 0) != (len(exported.remoteConnectionID) == 0) {
 		zzsymCover("one_sided_cid")
 	}
+}
+
+func zzC19EqCerts(a, b [][]byte) bool {
+	if len(a) != len(b) {
+		return false
+	}
+	ok := true
+	for i := range a {
+		ok = zzsymAnd(ok, zzsymEqBytes(a[i], b[i]))
+	}
+	return ok
 }
